@@ -1735,18 +1735,95 @@ def eq_body_shape(fd, names):
                 return None
         return {(True, False): 'same', (False, True): 'differ'}.get(tuple(res))
     if len(body) == 1 and isinstance(body[0], ast.Return) and body[0].value is not None:
-        return body[0].value, False
+        return body[0].value, False, 'False'
     if len(body) in (1, 2) and isinstance(body[0], ast.If) and len(body[0].body) == 1:
         st = body[0]
         k = same_class(st.test)
         rest = st.orelse if st.orelse else body[1:]
         if len(rest) != 1 or (st.orelse and len(body) != 1):
             return None
+        kind = lambda x: 'NotImplemented' if norm(x.value) == 'NotImplemented' else 'False'
         if k == 'differ' and negative(st.body[0]) and isinstance(rest[0], ast.Return) and rest[0].value is not None:
-            return rest[0].value, True
+            return rest[0].value, True, kind(st.body[0])
         if k == 'same' and isinstance(st.body[0], ast.Return) and st.body[0].value is not None and negative(rest[0]):
-            return st.body[0].value, True
+            return st.body[0].value, True, kind(rest[0])
     return None
+
+
+class _NI:
+    """the NotImplemented singleton inside the abstract evaluation (truthy, like the real one)"""
+    def __repr__(self):
+        return 'NotImplemented'
+
+
+def _check_ne(r, A, eq_foreign):
+    """`a != b` must be the negation of `a == b` in all three situations: same class & equal fields, same class &
+    different fields, operand of a foreign class.  Python derives != from __eq__ (treating NotImplemented correctly)
+    unless the class installs its own __ne__; an installed, generated __ne__ is evaluated abstractly together with
+    what the generated __eq__ returns in each situation."""
+    m = A.m
+    pc = m.get_func('_process_class')
+    cls = pc.args.args[0].arg
+    cons = "!= is the negation of =="
+    stores = [(a, v, i, st) for a, v, i, st in attr_stores(pc, cls) if a == '__ne__']
+    if not stores:
+        r.ok(m, '_process_class', cons + ": no generated __ne__ (Python derives it from __eq__)", nontrivial=False)
+        return
+    if eq_foreign is None:
+        raise AnalysisError("a generated __ne__ exists but the generated __eq__ could not be analysed")
+    for a, v, i, st in stores:
+        rv = resolve_value(pc, v, i, st)
+        where = '_process_class'
+        if rv is None or rv[0] not in m.functions:
+            r.bad(m, where, cons + f": cls.__ne__ = {norm(v)}", f"cls.__ne__ is set to `{norm(v)}`, not to a generated function "
+                  f"that can be related to the generated __eq__", st.lineno)
+            continue
+        gname = rv[0]
+        gdef = m.functions[gname]
+        top, ev = U.eval_generator(m, gdef, None)
+        items = top.items if isinstance(top, Tup) else (top,)
+        fn = items[rv[1]] if rv[1] is not None and rv[1] < len(items) else items[0]
+        hl = U.Holes()
+        fd, src, err = U.parse_fn(fn, hl) if isinstance(fn, Fn) else (None, show(fn), 'not a generated function')
+        if fd is None or len(fd.args.args) != 2:
+            r.bad(m, gname, cons + ": generated __ne__", f"the generated __ne__ is `{src[:100]}` ({err})", gdef.lineno)
+            continue
+        a0, a1 = [x.arg for x in fd.args.args]
+        NI = _NI()
+        situations = {'same class, equal fields': True, 'same class, different fields': False,
+                      'operand of a foreign class (Bits, int, None, another struct type)': NI if eq_foreign == 'NotImplemented' else False}
+        wrong = []
+        for sit, eqres in situations.items():
+            def leaf(e, eqres=eqres):
+                if isinstance(e, ast.Name) and e.id == 'NotImplemented':
+                    return NI
+                if isinstance(e, ast.Call) and isinstance(e.func, ast.Attribute) and e.func.attr == '__eq__' \
+                        and len(e.args) == 1 and {norm(e.func.value), norm(e.args[0])} == {a0, a1}:
+                    return eqres
+                if isinstance(e, ast.Compare) and len(e.ops) == 1 and {norm(e.left), norm(e.comparators[0])} == {a0, a1}:
+                    if isinstance(e.ops[0], ast.Eq):
+                        return False if eqres is NI else eqres        # `==` falls back to identity on NotImplemented
+                    if isinstance(e.ops[0], ast.NotEq):
+                        raise AnalysisError("the generated __ne__ uses != on its own operands (unbounded recursion)")
+                if isinstance(e, ast.Name) and e.id in (a0, a1):
+                    return e.id
+                return NotImplemented
+            outcome = Evaluator({}, leaf=leaf).run(fd.body)
+            r.evaluations += 1
+            if outcome[0] != 'return':
+                wrong.append(f"{sit}: the generated __ne__ does not return a value ({outcome[0]})")
+                continue
+            res = outcome[1]
+            ne_val = (eqres is not True) if res is NI else bool(res)   # a NotImplemented result lets Python fall back
+            eq_val = False if eqres is NI else eqres
+            if ne_val != (not eq_val):
+                wrong.append(f"{sit}: == gives {eq_val} and != gives {ne_val} (the generated __eq__ returns {eqres!r} there and "
+                             f"the generated __ne__ `{norm(fd.body)[:60]}` turns it into {res!r})")
+        c2 = cons + f": generated __ne__ `{norm(fd.body)[:60]}` with __eq__ returning {eq_foreign} for a foreign operand"
+        if wrong:
+            r.bad(m, gname, c2, '; '.join(wrong) + " -- == and != must never both be False (or both True)", gdef.lineno)
+        else:
+            r.ok(m, gname, c2)
 
 
 def rule_eqhash(repo):
@@ -1783,7 +1860,9 @@ def rule_eqhash(repo):
                     r.bad(m, where, cons, f"`{src}` is neither `return <class identity> and <tuple> == <tuple>` nor a class-guard "
                           f"early return followed by the tuple comparison", g.fdef.lineno)
                     continue
-                e, guarded_first = shape
+                e, guarded_first, foreign = shape
+                if label == '':
+                    spaces['eq-foreign'] = foreign
                 conj = [c_ for c_, pol_ in cond_atoms(e)] if all(pol_ for _, pol_ in cond_atoms(e)) else [e]
                 ident = [c for c in conj if isinstance(c, ast.Compare) and len(c.ops) == 1 and
                          isinstance(c.ops[0], (ast.Is, ast.Eq)) and
@@ -1853,6 +1932,7 @@ def rule_eqhash(repo):
                           "compares", g.fdef.lineno)
                 else:
                     r.ok(m, where, cons)
+    _check_ne(r, A, spaces.get('eq-foreign'))
     cons = "__eq__ and __hash__ range over the same field tuple"
     if 'eq' in spaces and 'hash' in spaces:
         if spaces['eq'] == spaces['hash']:
@@ -1861,7 +1941,7 @@ def rule_eqhash(repo):
             r.bad(m, '_mk_hash_fn', cons + f": {spaces['eq']} / {spaces['hash']}",
                   "__eq__ and __hash__ are computed from different field sets", A.gen('_mk_hash_fn').fdef.lineno)
     r.evaluations = A.steps()
-    floor(r, 4)
+    floor(r, 5)
     return r
 
 
@@ -3291,6 +3371,9 @@ MUTANTS = [
        "    return f'{name} = None' if isinstance( type_, list ) else f'{name} = _type_{name}()'\n  return f'{name} = 0'", 'R-C06'),
     # --- eighth seeding round: iterative generator, accumulator reset inside the loop over the rows
     _m('imatmul-iterative-last-row-only', '    if isinstance( type_, list ):\n      ret = []\n      for i in range(len(type_)):\n        ret.extend( _gen_list_imatmul_strs( type_[0], f"{prefix}[{i}]" ) )\n      return ret\n    else:\n      return [ f"self.{prefix} @= other.{prefix}" ]\n', '    prefixes = [ prefix ]\n    while isinstance( type_, list ):\n      for p in prefixes:\n        expanded = []\n        expanded.extend( f"{p}[{i}]" for i in range(len(type_)) )\n      prefixes, type_ = expanded, type_[0]\n    return [ f"self.{p} @= other.{p}" for p in prefixes ]\n', 'R-C06-grid'),
+    # --- tenth seeding round: == and != of a foreign operand
+    dict(name='ne-negates-notimplemented', rule='R-C06-eqhash', edits=[{'file': 'pymtl3/datatypes/bitstructs.py', 'old': "    [ f'return (other.__class__ is self.__class__) and {self_tuple} == {other_tuple}' ]\n  )\n", 'new': "    [ 'if other.__class__ is not self.__class__:',\n      '  return NotImplemented',\n      f'return {self_tuple} == {other_tuple}' ]\n  )\n\ndef _mk_ne_fn():\n  return _create_fn(\n    '__ne__',\n    [ 'self', 'other' ],\n    [ 'return not self.__eq__( other )' ]\n  )\n", 'count': 1}, {'file': 'pymtl3/datatypes/bitstructs.py', 'old': '    cls.__eq__ = _mk_eq_fn( fields )\n', 'new': "    cls.__eq__ = _mk_eq_fn( fields )\n    if not '__ne__' in cls.__dict__:\n      cls.__ne__ = _mk_ne_fn()\n", 'count': 1}]),
+    dict(name='ne-not-negated', rule='R-C06-eqhash', edits=[{'file': 'pymtl3/datatypes/bitstructs.py', 'old': "    [ f'return (other.__class__ is self.__class__) and {self_tuple} == {other_tuple}' ]\n  )\n", 'new': "    [ f'return (other.__class__ is self.__class__) and {self_tuple} == {other_tuple}' ]\n  )\n\ndef _mk_ne_fn():\n  return _create_fn(\n    '__ne__',\n    [ 'self', 'other' ],\n    [ 'return self.__eq__( other )' ]\n  )\n", 'count': 1}, {'file': 'pymtl3/datatypes/bitstructs.py', 'old': '    cls.__eq__ = _mk_eq_fn( fields )\n', 'new': "    cls.__eq__ = _mk_eq_fn( fields )\n    if not '__ne__' in cls.__dict__:\n      cls.__ne__ = _mk_ne_fn()\n", 'count': 1}]),
     # --- fifth seeding round
     _m('from-bits-rows-not-reversed', '''        from_strs.extend( fs )
       return end_bit, [ f"[{','.join(reversed(from_strs))}]" ]''', '''        from_strs.extend( fs )
@@ -3468,6 +3551,10 @@ EQUIV = [
         dict(file=BS, old='import functools\nimport keyword', new='import functools\nimport itertools\nimport keyword', count=1),
         dict(file=BS, old="  ilshift_strs = [ 'if self.__class__ is not other.__class__:',\n                   '  other = self.__class__.from_bits( other.to_bits() )']\n  flip_strs = []\n", new='  bits_strs, nbits = [], 0\n  for name, type_ in reversed( fields.items() ):\n    leaf, dims = _recursive_check_array_types( type_ ) if isinstance( type_, list ) else ( type_, [] )\n    for idx in itertools.product( *map( range, dims ) ):\n      pos, stride = 0, 1\n      for i, d in zip( reversed( idx ), reversed( dims ) ):\n        pos, stride = pos + i*stride, stride*d\n      lo = nbits + pos*leaf.nbits\n      bits_strs.append( f"  self.{name}{\'\'.join( f\'[{i}]\' for i in idx )} <<= other[{lo}:{lo+leaf.nbits}]" )\n    nbits += leaf.nbits * functools.reduce( operator.mul, dims, 1 )\n\n  ilshift_strs = [ \'if self.__class__ is not other.__class__:\',\n                   \'  other = other.to_bits()\',\n                  f\'  assert other.nbits == {nbits}, "bitwidth mismatch between LHS bitstruct and RHS"\',\n                   *bits_strs, \'  return self\' ]\n  flip_strs = []\n', count=1)]),
     _m('imatmul-iterative-over-dimensions', '    if isinstance( type_, list ):\n      ret = []\n      for i in range(len(type_)):\n        ret.extend( _gen_list_imatmul_strs( type_[0], f"{prefix}[{i}]" ) )\n      return ret\n    else:\n      return [ f"self.{prefix} @= other.{prefix}" ]\n', '    prefixes = [ prefix ]\n    while isinstance( type_, list ):\n      expanded = []\n      for p in prefixes:\n        expanded.extend( f"{p}[{i}]" for i in range(len(type_)) )\n      prefixes, type_ = expanded, type_[0]\n    return [ f"self.{p} @= other.{p}" for p in prefixes ]\n'),
+    dict(name='explicit-ne-with-boolean-eq', rule=None, edits=[{'file': 'pymtl3/datatypes/bitstructs.py', 'old': "    [ f'return (other.__class__ is self.__class__) and {self_tuple} == {other_tuple}' ]\n  )\n", 'new': "    [ f'return (other.__class__ is self.__class__) and {self_tuple} == {other_tuple}' ]\n  )\n\ndef _mk_ne_fn():\n  return _create_fn(\n    '__ne__',\n    [ 'self', 'other' ],\n    [ 'return not self.__eq__( other )' ]\n  )\n", 'count': 1}, {'file': 'pymtl3/datatypes/bitstructs.py', 'old': '    cls.__eq__ = _mk_eq_fn( fields )\n', 'new': "    cls.__eq__ = _mk_eq_fn( fields )\n    if not '__ne__' in cls.__dict__:\n      cls.__ne__ = _mk_ne_fn()\n", 'count': 1}]),
+    dict(name='explicit-ne-via-operator-with-notimplemented-eq', rule=None, edits=[{'file': 'pymtl3/datatypes/bitstructs.py', 'old': "    [ f'return (other.__class__ is self.__class__) and {self_tuple} == {other_tuple}' ]\n  )\n", 'new': "    [ 'if other.__class__ is not self.__class__:',\n      '  return NotImplemented',\n      f'return {self_tuple} == {other_tuple}' ]\n  )\n\ndef _mk_ne_fn():\n  return _create_fn(\n    '__ne__',\n    [ 'self', 'other' ],\n    [ 'return not (self == other)' ]\n  )\n", 'count': 1}, {'file': 'pymtl3/datatypes/bitstructs.py', 'old': '    cls.__eq__ = _mk_eq_fn( fields )\n', 'new': "    cls.__eq__ = _mk_eq_fn( fields )\n    if not '__ne__' in cls.__dict__:\n      cls.__ne__ = _mk_ne_fn()\n", 'count': 1}]),
+    dict(name='explicit-ne-passes-notimplemented-on', rule=None,
+         edits=[{'file': 'pymtl3/datatypes/bitstructs.py', 'old': "    [ f'return (other.__class__ is self.__class__) and {self_tuple} == {other_tuple}' ]\n  )\n", 'new': "    [ 'if other.__class__ is not self.__class__:',\n      '  return NotImplemented',\n      f'return {self_tuple} == {other_tuple}' ]\n  )\n\ndef _mk_ne_fn():\n  return _create_fn(\n    '__ne__',\n    [ 'self', 'other' ],\n    [ 'r = self.__eq__( other )', 'return r if r is NotImplemented else not r' ]\n  )\n", 'count': 1}, {'file': 'pymtl3/datatypes/bitstructs.py', 'old': '    cls.__eq__ = _mk_eq_fn( fields )\n', 'new': "    cls.__eq__ = _mk_eq_fn( fields )\n    if not '__ne__' in cls.__dict__:\n      cls.__ne__ = _mk_ne_fn()\n", 'count': 1}]),
     _m('from-bits-list-reverse-in-place', """      return end_bit, [ f"[{','.join(reversed(from_strs))}]" ]""",
        """      from_strs.reverse()
       return end_bit, [ f"[{','.join(from_strs)}]" ]"""),
